@@ -1117,10 +1117,11 @@ func (c *closureCase) Nontrivial() bool  { return true }
 // modCase: a main module and a second module it requires, replaced by a directory (beside the main module or
 // nested in it); every package is asked for SourceDir, one position is located.
 type modCase struct {
-	Main   string `json:"main"`   // module path of the main module
-	Lib    string `json:"lib"`    // module path of the required module
-	LibRel string `json:"librel"` // where the replacement lives, relative to the main module: ../lib | ./inner | ../deep/er/lib
-	Query  int    `json:"query"`  // which package the located position is in
+	Main   string `json:"main"`          // module path of the main module
+	Lib    string `json:"lib"`           // module path of the required module
+	LibRel string `json:"librel"`        // where the replacement lives, relative to the main module: ../lib | ./inner | ../deep/er/lib
+	Query  int    `json:"query"`         // which package the located position is in
+	Cgo    bool   `json:"cgo,omitempty"` // the package a/b of the main module and lib/sub are cgo-only packages (every Go file imports "C"): the go tool compiles them to files in its build cache whose //line directives name the sources
 	out    string
 	line   string
 	have   bool
@@ -1155,8 +1156,14 @@ func (c *modCase) eval() {
 		w("app/main.go", fmt.Sprintf("package app\n\nimport (\n\t_ %q\n\t_ %q\n)\n\ntype Root int\n", c.Main+"/a", c.Lib))
 		w("app/a/a.go", fmt.Sprintf("package a\n\nimport _ %q\n\ntype A int\n", c.Main+"/a/b"))
 		w("app/a/b/b.go", fmt.Sprintf("package b\n\nimport _ %q\n\ntype B int\n", c.Lib+"/sub"))
+		if c.Cgo {
+			w("app/a/b/b.go", fmt.Sprintf("package b\n\n// #include <stdint.h>\nimport \"C\"\n\nimport _ %q\n\ntype B int\n\nvar Native C.int32_t\n", c.Lib+"/sub"))
+		}
 		w(ps[3].dir+"/lib.go", "package lib\n\ntype Lib int\n")
 		w(ps[4].dir+"/sub.go", fmt.Sprintf("package sub\n\nimport _ %q\n\ntype Sub int\n", c.Lib+"/sub/leaf"))
+		if c.Cgo {
+			w(ps[4].dir+"/sub.go", fmt.Sprintf("package sub\n\n// #include <stdint.h>\nimport \"C\"\n\nimport _ %q\n\ntype Sub int\n\nvar Native C.int64_t\n", c.Lib+"/sub/leaf"))
+		}
 		w(ps[5].dir+"/leaf.go", "package leaf\n\ntype Leaf int\n")
 		old := os.Stdout
 		devnull, _ := os.OpenFile(os.DevNull, os.O_WRONLY, 0)
@@ -1214,7 +1221,14 @@ func (c *modCase) eval() {
 		qp := u.Package(ps[c.Query].path)
 		loc := "none"
 		if len(qp.Files()) > 0 {
-			lp := u.LocateInPackage(qp.Files()[0].Pos())
+			// the position of the package's own type declaration (Root, A, B, Lib, Sub, Leaf): a declaration the user wrote
+			qpos := qp.Files()[0].Pos()
+			for _, tn := range []string{"Root", "A", "B", "Lib", "Sub", "Leaf"} {
+				if t := qp.Type(tn); t != nil {
+					qpos = t.Pos()
+				}
+			}
+			lp := u.LocateInPackage(qpos)
 			if lp != nil && fmt.Sprintf("%v", lp) != "<nil>" {
 				loc = lp.Pkg().Path()
 			}
@@ -1253,7 +1267,9 @@ func (c *modCase) Oracle(out string) string {
 	return ""
 }
 func (c *modCase) Shrinks() []Case { return nil }
-func (c *modCase) Key() string     { return fmt.Sprintf("%s %s %s q%d", c.Main, c.Lib, c.LibRel, c.Query) }
+func (c *modCase) Key() string {
+	return fmt.Sprintf("%s %s %s q%d cgo=%v", c.Main, c.Lib, c.LibRel, c.Query, c.Cgo)
+}
 func (c *modCase) Classes() []string {
 	return []string{"replacement:" + c.LibRel, fmt.Sprintf("query:%d", c.Query)}
 }
@@ -1277,14 +1293,14 @@ func init() {
 								if tier != "thorough" && q%2 != (mi+li)%2 {
 									continue
 								}
-								yield(&modCase{Main: m, Lib: l, LibRel: rl, Query: q})
+								yield(&modCase{Main: m, Lib: l, LibRel: rl, Query: q, Cgo: (q+ri)%3 == 0})
 							}
 						}
 					}
 				}
 			},
 			EnumExhaustive: false, ShrinkBudget: 1, MaxShrinks: 3,
-			Rule: "two-module layouts: a main module (3 module paths) requiring a second module (3 paths, one of them looking like a sub-path of the main module) that a replace directive points at a directory beside the main module, nested inside it, or deeper elsewhere; three packages per module; compared with the model (path arithmetic of SourceDir, LocateInPackage as search over the universe, the locality decision of Load): the source directory of all six packages, the package located for a position and LocalPkgPaths(); oracle: SourceDir() = the directory the harness wrote the files to, LocateInPackage(position) = the package itself, local = exactly the three packages of the main module, all direct",
+			Rule: "two-module layouts: a main module (3 module paths) requiring a second module (3 paths, one of them looking like a sub-path of the main module) that a replace directive points at a directory beside the main module, nested inside it, or deeper elsewhere; three packages per module, in a third of the layouts one package of each module is cgo-only (every Go file imports C: the loaded syntax lives in the go tool's build cache, its //line directives name the sources); compared with the model (path arithmetic of SourceDir, LocateInPackage as search over the universe, the locality decision of Load): the source directory of all six packages, the package located for a position and LocalPkgPaths(); oracle: SourceDir() = the directory the harness wrote the files to, LocateInPackage(position) = the package itself, local = exactly the three packages of the main module, all direct",
 		},
 		{
 			Name: "tables", Quick: 900, Thorough: 6000, New: func() Case { return &tablesCase{} },
